@@ -172,8 +172,91 @@ def monotone_shapes(prop, tier, resource_rules):
 
 
 
+# ---- an argument left out means its documented default (twin builds on the small concrete problem) -------------------
+# (property, class, argument, documented default, other arguments) - defaults as documented in docs/*.md and in the field
+# descriptions of the classes (arguments whose documented default None is refused by the field type when passed explicitly are left out)
+DEFAULTS = [
+    ("C01", "FixedDurationTask", "optional", False, {"duration": 2}), ("C01", "FixedDurationTask", "work_amount", 0, {"duration": 2}),
+    ("C01", "FixedDurationTask", "release_date", None, {"duration": 2}), ("C01", "FixedDurationTask", "due_date", None, {"duration": 2}),
+    ("C01", "FixedDurationTask", "due_date_is_deadline", True, {"duration": 2, "due_date": 7}), ("C01", "FixedDurationTask", "priority", 1, {"duration": 2}),
+    ("C01", "VariableDurationTask", "min_duration", 0, {}), ("C01", "VariableDurationTask", "max_duration", None, {}),
+    ("C01", "VariableDurationTask", "allowed_durations", None, {"max_duration": 4}), ("C01", "ZeroDurationTask", "optional", False, {}),
+    ("C02", "Worker", "productivity", 1, {}), ("C02", "CumulativeWorker", "productivity", 1, {"size": 2}),
+    ("C02", "SelectWorkers", "nb_workers_to_select", 1, {}), ("C02", "SelectWorkers", "kind", "exact", {}),
+    ("C03", "TaskPrecedence", "offset", 0, {}), ("C03", "TaskPrecedence", "kind", "lax", {}), ("C03", "TaskStartAfter", "kind", "lax", {}),
+    ("C03", "TaskEndBefore", "kind", "lax", {}), ("C03", "TaskStartAt", "optional", False, {}), ("C03", "OrderedTaskGroup", "kind", "lax", {}),
+    ("C03", "ScheduleNTasksInTimeIntervals", "kind", "exact", {}), ("C03", "ForceScheduleNOptionalTasks", "nb_tasks_to_schedule", 1, {}),
+    ("C03", "ForceScheduleNOptionalTasks", "kind", "exact", {}),
+    ("C04", "ResourceTasksDistance", "mode", "exact", {}),
+    ("C04", "WorkLoad", "kind", "max", {}), ("C04", "ResourcePeriodicallyUnavailable", "offset", 0, {}), ("C04", "ResourcePeriodicallyUnavailable", "start", 0, {}),
+    ("C04", "ResourcePeriodicallyUnavailable", "end", None, {}), ("C04", "ResourcePeriodicallyInterrupted", "offset", 0, {}), ("C04", "ResourceUnavailable", "optional", False, {}),
+]
+
+
+def default_shape(prop, cname, arg, value, other):
+    name = f"documented_default/{cname}.{arg}"
+
+    def declare(explicit):
+        from checks import c18
+        pb = ps.SchedulingProblem(name="dflt", horizon=12)
+        e = c18._env()
+        cls = getattr(ps, cname)
+        req = [f for f, fi in cls.model_fields.items() if fi.is_required()]
+        kw = {r: c18.REQUIRED[r](e) for r in req if r not in other}
+        kw.update(other)
+        if cname.startswith("ResourcePeriodically"):
+            kw.update(list_of_time_intervals=[(0, 1)], period=6)
+        if cname == "ForceScheduleNOptionalTasks" and arg == "kind":
+            kw["nb_tasks_to_schedule"] = 1
+        if explicit:
+            kw[arg] = value
+        obj = cls(name="X", **kw)
+        if cname.endswith("Task"):
+            # give the new task something to do so that its parameters matter
+            obj.add_required_resource(e["w2"])
+            if arg in ("work_amount", "priority"):
+                ps.IndicatorTardiness(list_of_tasks=[e["t1"]])
+        elif cname in ("Worker", "CumulativeWorker"):
+            t = ps.VariableDurationTask(name="XT", work_amount=3, max_duration=6)
+            t.add_required_resource(obj)
+        elif cname == "SelectWorkers":
+            ps.FixedDurationTask(name="XT", duration=2).add_required_resource(obj)
+        return pb
+
+    def build(P):
+        pb0 = declare(True)
+        s0 = ps.SchedulingSolver(problem=pb0)
+        s0.initialize()
+        phi_e = list(s0._solver.assertions())
+        pb1 = declare(False)
+        return Ctx(problem=pb1, phi_e=phi_e)
+
+    def obligations(ctx):
+        from symx import formula
+        from checks.common import buffer_witness
+        c1, _ = formula.constants(ctx.phi_e)
+        c2, _ = formula.constants(ctx.phi)
+        shared = [c for n, c in c2.items() if n in c1 and "_maybe_busy_" not in n]
+        return [Ob(f"{prop}/{name}/omitted_admits_what_the_explicit_default_admits", "complete", valid=And(buffer_witness(list(ctx.phi_e))), observables=shared,
+                   phi=list(ctx.phi), transform=buffer_witness, twin=buffer_witness(list(ctx.phi_e)), replayer="checks.c03:replay_monotone", extra={"lost_in": "omitted"}),
+                Ob(f"{prop}/{name}/omitted_admits_nothing_more", "complete", valid=And(buffer_witness(list(ctx.phi))), observables=shared,
+                   phi=list(ctx.phi_e), transform=buffer_witness, twin=buffer_witness(list(ctx.phi)), replayer="checks.c03:replay_monotone", extra={"lost_in": "explicit"})]
+
+    sh = Shape(name, build, obligations)
+    sh.grid = False
+    sh.declare = lambda with_y: declare(not with_y)  # replay_monotone: False = reference (explicit default), True = argument omitted
+    from symx.harness import crash_obligations
+    sh.on_exception = crash_obligations(prop, name, "symx.harness:replay_build_crash", "a well-formed problem cannot be built and initialised")
+    return sh
+
+
+def default_shapes(prop):
+    return [default_shape(*d) for d in DEFAULTS if d[0] == prop]
+
+
+
 def shapes(tier):
-    out = monotone_shapes(PROP, tier, resource_rules=False)
+    out = monotone_shapes(PROP, tier, resource_rules=False) + default_shapes(PROP)
     for ename, el in ELEMENTS.items():
         pats = KIND_PATTERNS[el.ntasks]
         if tier == "quick":
